@@ -17,14 +17,14 @@ Theorem C08_decoder_never_leaks : forall D t tol frames s, Forall (fun r => is_p
 Proof. exact run_seq_no_pyerr. Qed.
 
 (* dispatcher: if no decoder leaks (each returns a code or raises an IR error), decode returns None or a code *)
-Theorem C08_dispatcher_never_raises : forall PS pdecode, (forall p ps, tame (snd (pdecode p ps)) = true) ->
-  forall cfg freq held_match ps st, quiet (snd (dispatch PS pdecode cfg freq held_match ps st)) = true.
+Theorem C08_dispatcher_never_raises : forall PS pdecode saved, (forall p ps, tame (snd (pdecode p ps)) = true) ->
+  forall cfg freq held_match ps st, quiet (snd (dispatch PS pdecode saved cfg freq held_match ps st)) = true.
 Proof. exact dispatch_never_raises. Qed.
 
 (* ... and one leak is enough: it goes straight through the dispatcher, *)
-Theorem C08_one_leak_goes_through : forall PS pdecode cfg freq ps st p r e ps',
-  possible cfg freq p = true -> pdecode p ps = (ps', OPy e) ->
-  snd (scan PS pdecode cfg freq ps st (p :: r)) = RRaisePy e.
+Theorem C08_one_leak_goes_through : forall PS pdecode saved cfg freq ps st p r e ps',
+  possible cfg freq p = true -> saved p = None -> pdecode p ps = (ps', OPy e) ->
+  snd (scan PS pdecode saved cfg freq ps st (p :: r)) = RRaisePy e.
 Proof. exact leak_goes_through. Qed.
 
 (* ... and kills the streaming thread, which otherwise survives every buffer *)
